@@ -221,6 +221,8 @@ pub struct Config {
     pub inject: bool,
     pub hang_secs: u64,
     pub max_viol_sigs: usize,
+    /// after the first violation of a level, finish the level for at most this long
+    pub grace_secs: u64,
 }
 
 pub struct Report {
@@ -669,6 +671,8 @@ pub fn explore<S: System>(sys: &S, cfg: &Config) -> Report {
             validated: AtomicU64::new(0),
             viol_count: AtomicU64::new(0),
         };
+        let mut first_viol_at: Option<Instant> = None;
+        let mut viol_stop = false;
         let outs: Vec<WorkerOut> = std::thread::scope(|sc| {
             let hs: Vec<_> = (0..cfg.threads)
                 .map(|w| {
@@ -683,6 +687,16 @@ pub fn explore<S: System>(sys: &S, cfg: &Config) -> Report {
                 }
                 if t0.elapsed().as_secs() > cfg.max_secs {
                     sh.stop.store(true, Ordering::Relaxed);
+                }
+                if sh.viol_count.load(Ordering::Relaxed) > 0 {
+                    match first_viol_at {
+                        None => first_viol_at = Some(Instant::now()),
+                        Some(t) if t.elapsed().as_secs() >= cfg.grace_secs => {
+                            viol_stop = true;
+                            sh.stop.store(true, Ordering::Relaxed);
+                        }
+                        _ => {}
+                    }
                 }
                 std::thread::sleep(std::time::Duration::from_millis(20));
             }
@@ -735,8 +749,16 @@ pub fn explore<S: System>(sys: &S, cfg: &Config) -> Report {
             capped = "machinery error".into();
             break;
         }
+        if stopped && (viol_stop || !all_viols.is_empty()) {
+            capped = format!("stopped at depth {} after the first violations were found", depth);
+            break;
+        }
         if stopped {
             capped = format!("time cap {} s hit while expanding depth {} (levels below are complete)", cfg.max_secs, depth);
+            break;
+        }
+        if !all_viols.is_empty() {
+            capped = format!("stopped after depth {}: violations found (BFS order: these are shortest counterexamples)", depth);
             break;
         }
         let mut newv: Vec<(u128, Cand)> = merged.into_iter().collect();
